@@ -377,10 +377,21 @@ pub fn emit_adapter(p: &Program, mf: &ModelFields) -> String {
 }
 
 pub struct Built {
-    pub scratch: Scratch,
+    pub scratch: std::sync::Arc<Scratch>,
+    /// per-program directory below the scratch dir: src/, out/, comp/
+    pub dir: PathBuf,
+    /// the driver executable for this program (a symlink `driver-<i>` to the shared batch binary,
+    /// which selects the theory by its own file name)
     pub exe: PathBuf,
+    pub theory: String,
     pub module_text: String,
     pub fields: ModelFields,
+}
+
+impl Built {
+    pub fn comp_dir(&self) -> PathBuf {
+        self.dir.join("comp").join(format!("{}.eql", self.theory))
+    }
 }
 
 #[derive(Debug)]
@@ -395,14 +406,21 @@ pub enum BuildError {
     Infra(String),
 }
 
-/// Compiles `source` with the repository CLI and builds a driver executable for it.
-pub fn build_driver(p: &Program, source: &str, mode: Mode) -> Result<Built, BuildError> {
-    let scratch = Scratch::new("drv");
-    let src = scratch.join("src");
-    let out = scratch.join("out");
-    let comp = scratch.join("comp");
+struct Staged {
+    theory: String,
+    dir: PathBuf,
+    module_path: PathBuf,
+    module_text: String,
+    fields: ModelFields,
+}
+
+fn stage_one(scratch: &Scratch, i: usize, theory: &str, p: &Program, source: &str, mode: Mode) -> Result<Staged, BuildError> {
+    let dir = scratch.join(&format!("p{}", i));
+    let src = dir.join("src");
+    let out = dir.join("out");
+    let comp = dir.join("comp");
     std::fs::create_dir_all(&src).unwrap();
-    std::fs::write(src.join(format!("{}.eql", THEORY)), source).unwrap();
+    std::fs::write(src.join(format!("{}.eql", theory)), source).unwrap();
     let run = run_cli(&CliOpts {
         src: &src,
         out: &out,
@@ -425,7 +443,7 @@ pub fn build_driver(p: &Program, source: &str, mode: Mode) -> Result<Built, Buil
     if !run.accepted() {
         return Err(BuildError::CompilerCrash(run));
     }
-    let module_path = out.join(format!("{}.eql.rs", THEORY));
+    let module_path = out.join(format!("{}.eql.rs", theory));
     let module_text = match std::fs::read_to_string(&module_path) {
         Ok(t) => t,
         Err(e) => return Err(BuildError::Infra(format!("generated module missing: {}", e))),
@@ -435,50 +453,139 @@ pub fn build_driver(p: &Program, source: &str, mode: Mode) -> Result<Built, Buil
         None => return Err(BuildError::Infra("cannot parse model struct".into())),
     };
     let adapter = emit_adapter(p, &fields);
-    std::fs::write(scratch.join("adapter.rs"), &adapter).unwrap();
+    std::fs::write(dir.join("adapter.rs"), &adapter).unwrap();
+    Ok(Staged { theory: theory.to_string(), dir, module_path, module_text, fields })
+}
+
+/// One rustc invocation for all staged programs. Ok(path of the shared binary).
+fn link_batch(scratch: &Scratch, staged: &[(usize, &Staged)], mode: Mode) -> Result<PathBuf, BuildError> {
     std::fs::write(scratch.join("common.rs"), DRIVER_COMMON).unwrap();
-    let main = format!(
-        "#![allow(warnings)]\nmod th {{\ninclude!({:?});\ninclude!({:?});\ninclude!({:?});\n}}\nfn main() {{ th::eqv_main::<th::{}>(); }}\n",
-        module_path.to_str().unwrap(),
-        scratch.join("common.rs").to_str().unwrap(),
-        scratch.join("adapter.rs").to_str().unwrap(),
-        fields.model_name
-    );
+    let mut main = String::from("#![allow(warnings)]\n");
+    for (i, st) in staged {
+        main.push_str(&format!(
+            "mod th{} {{\ninclude!({:?});\ninclude!({:?});\ninclude!({:?});\n}}\n",
+            i,
+            st.module_path.to_str().unwrap(),
+            scratch.join("common.rs").to_str().unwrap(),
+            st.dir.join("adapter.rs").to_str().unwrap()
+        ));
+    }
+    main.push_str("fn main() {\n    let exe = std::env::args().next().unwrap_or_default();\n    let which = exe.rsplit('-').next().unwrap_or(\"\").to_string();\n    match which.as_str() {\n");
+    for (i, st) in staged {
+        main.push_str(&format!("        \"{}\" => th{}::eqv_main::<th{}::{}>(),\n", i, i, i, st.fields.model_name));
+    }
+    main.push_str("        other => panic!(\"unknown theory selector {}\", other),\n    }\n}\n");
+    let main = main.replace("\\n", "\n");
     std::fs::write(scratch.join("main.rs"), main).unwrap();
     let exe = scratch.join("driver");
     let mut cmd = Command::new(rustc());
     cmd.arg(scratch.join("main.rs"))
         .args(["--edition=2024", "--crate-name=driver", "--cap-lints=allow"])
         .args(["-C", "opt-level=0", "-C", "debuginfo=0", "-C", "debug-assertions=on", "-C", "overflow-checks=on"])
+        .args(["-C", "codegen-units=4"])
         .arg("--extern")
         .arg(format!("eqlog_runtime={}", runtime_rlib().display()))
         .arg("-o")
         .arg(&exe);
     if mode == Mode::Component {
-        let cdir = comp.join(format!("{}.eql", THEORY));
-        cmd.arg("-L").arg(format!("native={}", cdir.display()));
-        let mut libs: Vec<String> = Vec::new();
-        if let Ok(rd) = std::fs::read_dir(&cdir) {
-            for e in rd.flatten() {
-                let n = e.file_name().to_string_lossy().into_owned();
-                if n.ends_with(".rlib") {
-                    libs.push(n);
+        for (_, st) in staged {
+            let cdir = st.dir.join("comp").join(format!("{}.eql", st.theory));
+            cmd.arg("-L").arg(format!("native={}", cdir.display()));
+            let mut libs: Vec<String> = Vec::new();
+            if let Ok(rd) = std::fs::read_dir(&cdir) {
+                for e in rd.flatten() {
+                    let n = e.file_name().to_string_lossy().into_owned();
+                    if n.ends_with(".rlib") {
+                        libs.push(n);
+                    }
                 }
             }
-        }
-        libs.sort();
-        for l in libs {
-            cmd.arg("-l").arg(format!("static:+verbatim={}", l));
+            libs.sort();
+            for l in libs {
+                cmd.arg("-l").arg(format!("static:+verbatim={}", l));
+            }
         }
     }
-    let o = util::run(&mut cmd, None, Duration::from_secs(300), 0).map_err(|e| BuildError::Infra(e.to_string()))?;
+    let o = util::run(&mut cmd, None, Duration::from_secs(600), 0).map_err(|e| BuildError::Infra(e.to_string()))?;
     if o.timed_out {
         return Err(BuildError::Infra("rustc timed out".into()));
     }
     if !o.ok() {
         return Err(BuildError::RustcFailed { stage: "driver".into(), stderr: o.stderr_str() });
     }
-    Ok(Built { scratch, exe, module_text, fields })
+    Ok(exe)
+}
+
+/// Compiles a batch of programs with the repository CLI and links them into ONE driver binary
+/// (one rustc start-up and link for the whole batch). If rustc rejects the batch, every program
+/// is rebuilt on its own so that the failure is attributed to the right program.
+pub fn build_batch(items: &[(&Program, &str)], mode: Mode) -> Vec<Result<Built, BuildError>> {
+    let scratch = std::sync::Arc::new(Scratch::new("drv"));
+    let single = items.len() == 1;
+    let staged: Vec<Result<Staged, BuildError>> = items
+        .iter()
+        .enumerate()
+        .map(|(i, (p, src))| {
+            let theory = if single { THEORY.to_string() } else { format!("th{}", (b'a' + i as u8) as char) };
+            stage_one(&scratch, i, &theory, p, src, mode)
+        })
+        .collect();
+    let ok: Vec<(usize, &Staged)> = staged.iter().enumerate().filter_map(|(i, s)| s.as_ref().ok().map(|s| (i, s))).collect();
+    let linked = if ok.is_empty() { Err(BuildError::Infra("nothing to link".into())) } else { link_batch(&scratch, &ok, mode) };
+    match linked {
+        Ok(exe) => staged
+            .into_iter()
+            .enumerate()
+            .map(|(i, s)| {
+                s.map(|st| {
+                    let link = scratch.join(&format!("driver-{}", i));
+                    let _ = std::os::unix::fs::symlink(&exe, &link);
+                    Built { scratch: scratch.clone(), dir: st.dir, exe: link, theory: st.theory, module_text: st.module_text, fields: st.fields }
+                })
+            })
+            .collect(),
+        Err(e) => {
+            if single {
+                return staged.into_iter().map(|s| s.and_then(|_| Err(clone_err(&e)))).collect();
+            }
+            // attribute the failure: rebuild one by one
+            items
+                .iter()
+                .zip(staged.into_iter())
+                .map(|((p, src), s)| match s {
+                    Err(e) => Err(e),
+                    Ok(_) => build_driver(p, src, mode),
+                })
+                .collect()
+        }
+    }
+}
+
+fn clone_err(e: &BuildError) -> BuildError {
+    match e {
+        BuildError::Rejected(r) => BuildError::Rejected(r.clone()),
+        BuildError::CompilerCrash(r) => BuildError::CompilerCrash(r.clone()),
+        BuildError::RustcFailed { stage, stderr } => BuildError::RustcFailed { stage: stage.clone(), stderr: stderr.clone() },
+        BuildError::Infra(s) => BuildError::Infra(s.clone()),
+    }
+}
+
+/// Compiles `source` with the repository CLI and builds a driver executable for it.
+pub fn build_driver(p: &Program, source: &str, mode: Mode) -> Result<Built, BuildError> {
+    build_batch(&[(p, source)], mode).pop().unwrap()
+}
+
+pub const BATCH: usize = 8;
+
+/// Builds drivers for many programs: batches of `BATCH` programs per rustc invocation, batches in
+/// parallel.
+pub fn build_all(items: &[(&Program, &str)], mode: Mode) -> Vec<Result<Built, BuildError>> {
+    use rayon::prelude::*;
+    // enough batches to occupy the cores, but at least 2 and at most BATCH programs per rustc
+    let per = (items.len() / 16).clamp(2, BATCH);
+    let chunks: Vec<&[(&Program, &str)]> = items.chunks(per).collect();
+    let res: Vec<Vec<Result<Built, BuildError>>> = chunks.par_iter().map(|c| build_batch(c, mode)).collect();
+    res.into_iter().flatten().collect()
 }
 
 /// Runs a command script against a driver; returns the raw transcript.
